@@ -65,3 +65,27 @@ Print Assumptions C08_refuted_pinned.
    visible trace the acceptance check accepts *)
 Example C08_nonvacuous : conc_accepts ex_cf 8 (init_conc ex_progs) (snd ex_run) = true.
 Proof. exact ex_accepts. Qed.
+
+(* ---- the pooled buffer in which Send assembles the message (model/SendBuf.v: sendBufferPool.Get, Reset,
+   Encode, ONE Connection.Write, deferred Put, as atomic micro-steps on a heap of byte slices).  For any
+   number of goroutines, every interleaving of those micro-steps, every behaviour of sync.Pool (a new
+   buffer, or any buffer put back earlier with whatever it still holds) and any delay between the
+   encoding and the Write: the connection receives, Write by Write, exactly what the buffer-free
+   abstract Send emits — each sender's own complete encoding, once ---- *)
+From FF Require Import model.Show model.Pool model.SendBuf.
+From Coq Require Import String.
+Local Open Scope string_scope.
+From FF Require proofs.SendBuf_Proofs.
+
+Theorem C08_pooled_buffer_whole_messages : forall (n : nat) (sch : list sitem),
+  ss_wire (sc_st (sexec send_repaired (sinit n) sch)) = spec_wire (repeat T_idle n) sch.
+Proof. exact SendBuf_Proofs.sendbuf_refines_abstract. Qed.
+Print Assumptions C08_pooled_buffer_whole_messages.
+
+(* regression witness: a helper that returns buf.Bytes() with the Put already done (the buffer is back in
+   the pool while the caller is about to write it): with two senders one message goes out twice, the other never *)
+Theorem C08_pooled_buffer_early_put_refuted :
+  ss_wire (sc_st (sexec SendBuf_Proofs.earlyput (sinit 2) SendBuf_Proofs.earlyput_sched)) = [(0%nat, str "BBBB"); (1%nat, str "BBBB")]
+  /\ spec_wire (repeat T_idle 2) SendBuf_Proofs.earlyput_sched = [(0%nat, str "AAAA"); (1%nat, str "BBBB")].
+Proof. exact SendBuf_Proofs.sendbuf_earlyput_refuted. Qed.
+Print Assumptions C08_pooled_buffer_early_put_refuted.
